@@ -13,13 +13,14 @@ type Record struct {
 	Deps        [][]int `json:"deps"`
 	Untracked   []bool  `json:"untracked"`
 	InvalidSelf []bool  `json:"invalid_self"`
-	Strict      bool    `json:"strict"`     // conc: no world change between a listing and the end of its operation
-	HashYield   bool    `json:"hash_yield"` // conc: the fingerprint function is a scheduling point
-	Tasks       [][]Op  `json:"tasks"`      // caller tasks
-	World       []Op    `json:"world"`      // world task (conc)
-	Sched       []int   `json:"sched"`      // scheduler choices
-	Preempt     [][]int `json:"preempt"`    // per caller: function-entry yield counts at which to yield
-	MapOrder    []int   `json:"map_order"`  // tape for unordered iteration seams
+	SelfSkip    []bool  `json:"self_skip,omitempty"` // own fingerprint is "" (HashSkip): own changes are not tracked, dependencies are
+	Strict      bool    `json:"strict"`              // conc: no world change between a listing and the end of its operation
+	HashYield   bool    `json:"hash_yield"`          // conc: the fingerprint function is a scheduling point
+	Tasks       [][]Op  `json:"tasks"`               // caller tasks
+	World       []Op    `json:"world"`               // world task (conc)
+	Sched       []int   `json:"sched"`               // scheduler choices
+	Preempt     [][]int `json:"preempt"`             // per caller: function-entry yield counts at which to yield
+	MapOrder    []int   `json:"map_order"`           // tape for unordered iteration seams
 }
 
 // Op is one action of a caller or of the world.
@@ -53,7 +54,9 @@ func genWorld(rt *rapid.T, r *Record) {
 		}
 		r.Deps = append(r.Deps, deps)
 		r.Untracked = append(r.Untracked, rapid.IntRange(0, 5).Draw(rt, "untracked") == 0)
-		r.InvalidSelf = append(r.InvalidSelf, rapid.IntRange(0, 9).Draw(rt, "invalid") == 0)
+		inv := rapid.IntRange(0, 9).Draw(rt, "invalid") == 0
+		r.InvalidSelf = append(r.InvalidSelf, inv)
+		r.SelfSkip = append(r.SelfSkip, !inv && rapid.IntRange(0, 5).Draw(rt, "selfskip") == 0)
 	}
 }
 
@@ -237,6 +240,7 @@ func (r *Record) clone() *Record {
 	}
 	c.Untracked = append([]bool(nil), r.Untracked...)
 	c.InvalidSelf = append([]bool(nil), r.InvalidSelf...)
+	c.SelfSkip = append([]bool(nil), r.SelfSkip...)
 	return &c
 }
 
@@ -327,6 +331,10 @@ func Simplify(rec any) []any {
 		if r.InvalidSelf[i] {
 			i := i
 			add(func(c *Record) { c.InvalidSelf[i] = false })
+		}
+		if i < len(r.SelfSkip) && r.SelfSkip[i] {
+			i := i
+			add(func(c *Record) { c.SelfSkip[i] = false })
 		}
 	}
 	if r.HashYield {
